@@ -434,6 +434,7 @@ PROPS = {
         "units": ["queries", "sections", "streamcfg"],
         "replays": [
             {"bin": "d53_stream_response_timeout", "crate": "replay_net", "finding": "D53"},
+            {"bin": "d54_stream_unrelated_replies", "crate": "replay_net", "finding": "D54"},
         ],
         "kani": [
             {"group": "repo_client", "name": "c15_queries_match_model_bounded", "kind": "bounded", "tier": "quick", "timeout": 600,
